@@ -118,15 +118,20 @@ PROPS["C03"] = {
     "shards": 16,
     "quick_budget_s": 60,
     "thorough_budget_s": 900,
-    "floors": {"any": {"pure-implicit-groups-checked": 200, "encode:ok": 300, "compositions-with-shared-implicit-import": 100, "compositions-with-versioned-group": 10,
+    "floors": {"any": {"order:interfaces-equal": 8000, "order:interfaces-equal-with-several-imports": 5000, "pure-implicit-groups-checked": 200, "encode:ok": 300, "compositions-with-shared-implicit-import": 100, "compositions-with-versioned-group": 10,
                        "shared-import-union-checked": 300, "encode:implicit-import-conflict": 5}},
-    "rule": _COMPOSE_RULE + "Libraries always carry versions (same track, other track, unversioned second package); 0-80% of arguments "
+    "rule": _COMPOSE_RULE + "Workload 1: Libraries always carry versions (same track, other track, unversioned second package); 0-80% of arguments "
             "wired so that many stay implicit. Expected import names = explicit names + one canonical (highest) name per semver "
             "track of unsatisfied argument names (model M2 on the semver crate); output names must equal expected + a subset of the "
             "generator's `use` closure; no two imports on one track; every shared instance import must export at least the names "
             "each sharer's own binary import requires (read by the independent decoder); exports and their kinds; imports() "
             "listing; identical non-component imports in both dependency modes; ImplicitImportConflict exactly when an unsatisfied "
-            "name equals an explicit name. Non-trivial: >=2 instantiations sharing an import group, or a versioned group.",
+            "name equals an explicit name; a group made only of unsatisfied argument names on one semver track must be imported "
+            "under its highest version (versions that gain a digit included). Non-trivial: >=2 instantiations sharing an import "
+            "group, or a versioned group. Workload 2 (creation order): a well-formed WAC program from C04's generator is re-ordered "
+            "by a random dependency-preserving permutation of its statements (export statements keep their relative order); both "
+            "orders must resolve and encode, and the decoded interfaces (import name, sort and the names its instance type exports; "
+            "export name and sort) must be equal.",
     "assumptions": ["'the interfaces those types depend on' is checked as an upper bound (subset of the use-closure in the generator's model)",
                     "same-track versions generated by the library generator are compatible by construction (later = earlier + functions)"],
     "technique": "runtime monitor: reference model of implied imports/exports (semver-track grouping) vs independently decoded import/export sections",
